@@ -14,10 +14,12 @@ TCall == More /\ Ev.e = "BarCall" /\ Consume /\ BarCall(Ev.t, Ev.k)
 TRet == More /\ Ev.e = "BarRet" /\ Consume /\ BarRet(Ev.t, Ev.k)
 \* a rejected call (tasklet caller) reports the documented error and is not an arrival
 TReject == More /\ Ev.e = "BarReject" /\ Consume /\ Ev.ret = 1 /\ UNCHANGED hvars
+\* a rejected re-initialisation (no waiters) reports the documented error and leaves the number of waiters as it was
+TRejReinit == More /\ Ev.e = "BarRejReinit" /\ Consume /\ Ev.ret = 1 /\ Ev.n = n /\ UNCHANGED hvars
 TEnd == More /\ Ev.e = "End" /\ Consume
         /\ (Ev.why = "done" => \A t \in Threads : inside[t] = -1)
         /\ UNCHANGED hvars
-TNext == TReject \/ TReset \/ TBarrier \/ TCall \/ TRet \/ TEnd
+TNext == TReject \/ TRejReinit \/ TReset \/ TBarrier \/ TCall \/ TRet \/ TEnd
 TSpec == TInit /\ [][TNext]_tvars
 NotAccepted == l <= Len(TraceLog)
 TrackMax == TLCSet(1, IF TLCGet(1) < l THEN l ELSE TLCGet(1))
